@@ -291,6 +291,17 @@ func TestC09(t *testing.T) {
 				}
 				txs = uniq
 			}
+			if silentWhale {
+				// the whale's relayer stays silent for the whole case, whatever the random traffic contains
+				var kept []FATx
+				for _, tx := range txs {
+					if _, isKA := tx.Msgs[0].(*valsettypes.MsgKeepAlive); isKA && tx.Signers[0].Addr.Equals(fa.ValidatorOperator(0).Addr) {
+						continue
+					}
+					kept = append(kept, tx)
+				}
+				txs = kept
+			}
 			b := fa.DeliverTxs(txs...)
 			r.Stats["txs"] += len(txs)
 			for _, x := range b.Txs {
